@@ -685,6 +685,47 @@ func builtFrom(v ssa.Value, match func(ssa.Value) bool) bool {
 	return walk(v, 0)
 }
 
+// guardedByDeep is guardedBy that also looks into boolean helpers: a guard
+// `if h(x)` (true edge) establishes pred when every way for h to answer true
+// establishes it - the true result is returned under a guard satisfying
+// pred, or is itself the test (`return v, err == nil`).
+func guardedByDeep(b *ssa.BasicBlock, pred func(g Guard) bool) bool {
+	for _, g := range guardsOf(b) {
+		if pred(g) {
+			return true
+		}
+		if !g.Branch {
+			continue
+		}
+		call, idx := originCallLocal(g.Cond)
+		if call == nil {
+			continue
+		}
+		h := call.Common().StaticCallee()
+		if h == nil || h.Blocks == nil || h.Pkg == nil || !isRepoPath(h.Pkg.Pkg.Path()) || idx >= h.Signature.Results().Len() {
+			continue
+		}
+		if b, ok := h.Signature.Results().At(idx).Type().Underlying().(*types.Basic); !ok || b.Kind() != types.Bool {
+			continue
+		}
+		all, n := true, 0
+		for _, lf := range returnLeaves(h, idx) {
+			if k, isK := constOf(lf.Val); isK && (k == nil || !constant.BoolVal(k)) {
+				continue // a false answer does not take the true edge
+			}
+			n++
+			if lf.GuardedBy(pred) || pred(Guard{Cond: lf.Val, Branch: true}) {
+				continue
+			}
+			all = false
+		}
+		if all && n > 0 {
+			return true
+		}
+	}
+	return false
+}
+
 // guardedBy reports whether some dominating guard satisfies pred.
 func guardedBy(b *ssa.BasicBlock, pred func(g Guard) bool) bool {
 	for _, g := range guardsOf(b) {
